@@ -16,8 +16,15 @@ from skepticoin.params import MAX_SASHIMI
 NULLREF = OutputReference(b"\x00" * 32, 0)
 
 
-def coinbase(height, value, pk, data=b""):
-    return Transaction([Input(NULLREF, CoinbaseData(height, data))], [Output(value, pk)])
+def coinbase(height, value, pk, data=b"", split=None, keys=None):
+    """reward transaction; `split` = number of outputs the value is spread over"""
+    if split and split > 1 and value >= split:
+        base = value // split
+        vals = [base] * (split - 1) + [value - base * (split - 1)]
+        outs = [Output(v, keys.pk(i) if keys else pk) for i, v in enumerate(vals)]
+    else:
+        outs = [Output(value, pk)]
+    return Transaction([Input(NULLREF, CoinbaseData(height, data))], outs)
 
 
 def fees_of(txs, utxo):
@@ -34,7 +41,7 @@ class Crafter:
         self.keys = tree.keys
         self.rng = tree.rng
 
-    def craft(self, parent_hash, txs=None, others=None, reward_delta=0, reward_value=None, cb_height=None,
+    def craft(self, parent_hash, txs=None, others=None, reward_delta=0, reward_value=None, cb_height=None, split=None,
               height=None, timestamp=None, target=None, merkle=None, miner=0, post=None, want_pow=True,
               evidence_view=None, max_tries=60000):
         cs = self.cs
@@ -49,7 +56,8 @@ class Crafter:
             except KeyError:
                 fees = 0
             value = reward_value if reward_value is not None else consensus.get_block_subsidy(h) + fees + reward_delta
-            cb = coinbase(h if cb_height is None else cb_height, max(value, 0), self.keys.pk(miner))
+            cb = coinbase(h if cb_height is None else cb_height, max(value, 0), self.keys.pk(miner), split=split,
+                          keys=self.keys)
             txs = [cb] + list(others)
         ts = timestamp if timestamp is not None else parent.timestamp + self.rng.randrange(1, 100)
         view = chain.view(cs, parent_hash)
@@ -84,6 +92,7 @@ def classes_for(focus):
            "dup_ref_across_txs", "null_ref", "wrong_key_sig", "outputs_edited", "refs_edited", "placeholder_sig",
            "coinbasedata_sig", "bad_curve_point", "intra_block_spend", "dup_tx"]
     c02 = ["valid", "valid_multi", "reward_plus1", "reward_exact_fees", "reward_minus1", "fees_wrong_state",
+           "reward_split_exact", "reward_split_plus1", "reward_split_big",
            "zero_output", "max_output", "over_max_output", "u64_output", "total_over_max", "overspend_by_1",
            "reward_no_fee_tx"]
     c05 = ["valid", "valid_multi", "pow_fails", "target_plus1", "target_minus1", "stale_target", "height_plus1",
@@ -93,7 +102,8 @@ def classes_for(focus):
     return {"C01": c01, "C02": c02, "C05": c05, "all": sorted(set(c01 + c02 + c05))}[focus]
 
 
-EXPECT_VALID = {"valid", "valid_multi", "reward_exact_fees", "reward_minus1", "max_output", "ts_future_30"}
+EXPECT_VALID = {"prelude_valid", "valid", "valid_multi", "reward_exact_fees", "reward_minus1", "max_output", "ts_future_30",
+                "reward_split_exact"}
 # classes whose verdict depends on the sampled data (not asserted by the monitor, only compared)
 UNDETERMINED = {"ev_other_fork", "fees_wrong_state", "bad_curve_point"}
 
@@ -177,6 +187,7 @@ def make_candidate(cr, klass, parent_hash, now_holder):
         tx = one_tx()
         if tx is None:
             return None
+        now_holder.append(cr.craft(parent_hash, others=[tx]))      # the genuine spend is validated first
         outs = list(tx.outputs)
         k = rng.randrange(0, len(outs))
         if rng.random() < 0.5 and outs[k].value > 1:
@@ -191,6 +202,7 @@ def make_candidate(cr, klass, parent_hash, now_holder):
         rng.shuffle(sp)
         (r1, o1), (r2, o2) = sp[0], sp[1]
         tx = chain.make_tx(keys, utxo, [r1], [(min(o1.value, o2.value), 0)])
+        now_holder.append(cr.craft(parent_hash, others=[tx]))
         bad = Transaction([Input(r2, tx.inputs[0].signature)], tx.outputs)
         return cr.craft(parent_hash, others=[bad]), now
     if klass in ("placeholder_sig", "coinbasedata_sig"):
@@ -227,6 +239,18 @@ def make_candidate(cr, klass, parent_hash, now_holder):
         others = t.random_txs(parent_hash, rng.randrange(0, 3))
         d = {"reward_plus1": 1, "reward_exact_fees": 0, "reward_minus1": -1}[klass]
         return cr.craft(parent_hash, others=others, reward_delta=d), now
+    if klass in ("reward_split_exact", "reward_split_plus1", "reward_split_big"):
+        others = t.random_txs(parent_hash, rng.randrange(0, 3))
+        k = rng.choice([2, 3, 3, 4, 5])
+        if klass == "reward_split_big":
+            # every adjacent pair fits under the limit, the total does not
+            h = parent.height + 1
+            lim = consensus.get_block_subsidy(h) + fees_of(others, utxo)
+            vals = [lim // 2] * rng.choice([3, 4, 5])
+            cb = Transaction([Input(NULLREF, CoinbaseData(h, b""))], [Output(v, keys.pk(i)) for i, v in enumerate(vals)])
+            return cr.craft(parent_hash, txs=[cb] + others), now
+        d = 0 if klass == "reward_split_exact" else 1
+        return cr.craft(parent_hash, others=others, reward_delta=d, split=k), now
     if klass == "reward_no_fee_tx":
         tx = t.random_tx(parent_hash, fee_choices=(1000, 5000))
         if tx is None:
@@ -379,6 +403,40 @@ def independent_target(cs, block):
     return min(int.from_bytes(parent.target, "big") * elapsed // T, 2 ** 256 - 1).to_bytes(32, "big")
 
 
+def independent_evidence(cs, block):
+    """the evidence re-derived from the block's summary, its own ancestors (found by walking parent links) and its
+    transaction list — without any of the repository's evidence / sampling code"""
+    import hashlib
+    from skepticoin.serialization import serialize_list
+    s = block.header.summary
+    height = s.height
+    summary_hash = consensus.scrypt(s.serialize(), height.to_bytes(8, "big"))
+    if height == 0:
+        sample = b"\x00" * 32
+    else:
+        anc = {}
+        a = cs.block_by_hash[s.previous_block_hash]
+        while True:
+            anc[a.height] = a
+            if a.previous_block_hash == b"\x00" * 32 or a.previous_block_hash not in cs.block_by_hash:
+                break
+            a = cs.block_by_hash[a.previous_block_hash]
+        parts, cur = [], summary_hash
+        for i in range(8):
+            sel = anc[int.from_bytes(cur[:8], "big") % height]
+            ser = sel.serialize()
+            start = int.from_bytes(cur[8:12], "big") % len(ser)
+            piece = b""
+            while len(piece) < 4:
+                piece += ser[start:start + 4 - len(piece)]
+                start = 0
+            parts.append(piece)
+            cur = hashlib.sha256(hashlib.sha256(cur + piece).digest()).digest()
+        sample = b"".join(parts)
+    block_hash = hashlib.blake2b(summary_hash + sample + serialize_list(block.transactions), digest_size=32).digest()
+    return summary_hash, sample, block_hash
+
+
 def monitor_accepted(res, prop, cs, block, now, klass, cs_after):
     """the property's predicate on a block the implementation accepted"""
     parent_hash = block.previous_block_hash
@@ -442,11 +500,11 @@ def monitor_accepted(res, prop, cs, block, now, klass, cs_after):
         if not (parent.timestamp < block.timestamp <= now + 30):
             bad.append("timestamp rule")
         try:
-            ev = consensus.construct_pow_evidence(cs, block.header.summary, block.height, block.transactions)
-            if ev != block.header.pow_evidence:
-                bad.append("evidence differs from the recomputed evidence")
-        except Exception:
-            bad.append("evidence not recomputable")
+            e = block.header.pow_evidence
+            if (e.summary_hash, e.chain_sample, e.block_hash) != independent_evidence(cs, block):
+                bad.append("evidence differs from the evidence recomputed from summary, own ancestors and transactions")
+        except Exception as ex:
+            bad.append("evidence not recomputable: %r" % ex)
     return bad
 
 
@@ -503,8 +561,9 @@ def run_ledger(ctx, focus, res=None):
                 at_boundary = [b for b in tree.blocks if (b.height + 1) % I == 0]
                 if at_boundary:
                     parent_hash = rng.choice(at_boundary).hash()
+            prelude = []
             try:
-                c = make_candidate(cr, klass, parent_hash, None)
+                c = make_candidate(cr, klass, parent_hash, prelude)
             except Exception as e:  # generator could not build this class here
                 res.count("generator-skip:" + klass)
                 continue
@@ -512,6 +571,8 @@ def run_ledger(ctx, focus, res=None):
                 res.count("no-material:" + klass)
                 continue
             blk, now = c
+            for pb in prelude:
+                cands.append(("prelude_valid", pb, now))
             cands.append((klass, blk, now))
         sig_mark = 0
         for klass, blk, now in cands:
@@ -522,6 +583,7 @@ def run_ledger(ctx, focus, res=None):
             except Exception as e:
                 after_state = None
                 verdict = "rej"
+                err = e
                 res.count("reject-kind:" + type(e).__name__)
             # the receiver's state object is untouched by the attempt
             if chain.state_digest(base, full=False) != before:
@@ -551,8 +613,14 @@ def run_ledger(ctx, focus, res=None):
                                            "tree": [b.serialize().hex() for b in tree.blocks]})
             else:
                 if klass in EXPECT_VALID:
-                    # not a property violation (the property is one-directional) but a sign the generator is off
                     res.count("valid-class-rejected:" + klass)
+                    if focus in ("C05", "all") and klass in ("valid", "valid_multi") and blk.height > horizon:
+                        # C05, last sentence: what the node's own block assembly produces (on the view whose head is
+                        # the parent) satisfies all header rules once its id is below target
+                        res.violations.append({"kind": "a block produced by the node's own assembly on a stored parent is "
+                                                       "rejected by full validation", "class": klass, "block": ser.hex(),
+                                               "now": now, "error": repr(err)[:200],
+                                               "tree": [b.serialize().hex() for b in tree.blocks]})
             if len(res.samples) < 4:
                 res.sample({"class": klass, "verdict": verdict, "block_bytes": len(ser), "height": blk.height})
         model = ctx.driver.ask(ops)
